@@ -321,7 +321,7 @@ class Interp:
         elif isinstance(t, ast.Attribute):
             obj = self.eval(t.value, env)
             if isinstance(obj, SRec):
-                obj.set(t.attr, v)
+                obj.set(self.mangle(t.attr, env), v)
             elif hasattr(obj, "setattr"):
                 obj.setattr(t.attr, v)
             else:
@@ -367,6 +367,8 @@ class Interp:
                 return
             if isinstance(obj, SRec):
                 obj.set(s.target.attr, self.binop(op, cur, rhs, s.lineno))
+            elif hasattr(obj, "setattr"):
+                obj.setattr(s.target.attr, self.binop(op, cur, rhs, s.lineno))
             else:
                 raise Unsupported("augmented attribute assignment")
         elif isinstance(s.target, ast.Subscript):
@@ -521,7 +523,7 @@ class Interp:
 
     def do_while(self, s, env):
         k = self.next_ordinal("loop")
-        spec = self.loop_specs.get((self.fn_name(), k))
+        spec = self.loop_specs.get((self.fn_name().split("::")[-1], k))
         if spec is None:
             # bounded concrete unrolling only if the test is concrete on every iteration
             for _ in range(256):
@@ -543,7 +545,7 @@ class Interp:
 
     def loop_with_invariant(self, s, env, it):
         k = self.next_ordinal("loop")
-        spec = self.loop_specs.get((self.fn_name(), k))
+        spec = self.loop_specs.get((self.fn_name().split("::")[-1], k))
         if spec is None:
             raise Unsupported("for loop over a symbolic iterable without invariant (%s loop %d)" % (self.fn_name(), k))
         spec.run_for(self, s, env, it, k)
@@ -936,9 +938,16 @@ class Interp:
         raise Unsupported("2-D index %r" % (idx,))
 
     # ---- attributes ------------------------------------------------------------------
+    def mangle(self, attr, env):
+        if attr.startswith("__") and not attr.endswith("__"):
+            owner = self.cur_owner(env)
+            if owner is not None:
+                return "_%s%s" % (owner.__name__.lstrip("_"), attr)
+        return attr
+
     def e_Attribute(self, e, env):
         obj = self.eval(e.value, env)
-        return self.getattr(obj, e.attr, e.lineno)
+        return self.getattr(obj, self.mangle(e.attr, env), e.lineno)
 
     def getattr(self, obj, name, lineno=None):
         if isinstance(obj, SRec):
